@@ -10,7 +10,15 @@ type SkipCopy struct{}
 
 // Matches returns true, if the builder can create handle the given types.
 func (*SkipCopy) Matches(ctx *MethodContext, source, target *xtype.Type) bool {
-	return ctx.Conf.SkipCopySameType && source.String == target.String
+	if !ctx.Conf.SkipCopySameType || source.String != target.String {
+		return false
+	}
+	// the field settings of the method are written for its struct: it is
+	// converted field by field, the settings are not dropped.
+	if len(ctx.Conf.RawFieldSettings) > 0 && (ctx.FieldsTarget == target.String || ctx.Signature.Target == target.String) {
+		return false
+	}
+	return true
 }
 
 // Build creates conversion source code for the given source and target type.
